@@ -600,6 +600,16 @@ Proof.
   rewrite <- (app_nil_r (flat_map _ kids)). now rewrite (find_flat_pre S n _ kids [] HS HF).
 Qed.
 
+(* the element sought is the only child of the first child (a time type's <Encoding>) *)
+Lemma find_desc_hit2 n m a a2 x post : String.eqb "Encoding" n = false -> is_tag U n x = true ->
+  find_desc U n (E U m a (E U "Encoding" a2 [x] :: post)) = Some x.
+Proof.
+  intros HE Hx. unfold find_desc. rewrite vdepth_E. cbn [fold_right]. rewrite vdepth_E. cbn [fold_right].
+  destruct x as [tg at' tx kx]. cbn [vdepth].
+  match goal with |- context [Nat.max (S ?a) ?b] => destruct b as [|b'] eqn:Eb; cbn [Nat.max] end;
+    rewrite descendants_E; cbn [flat_map]; rewrite descendants_E; cbn [flat_map app List.find]; rewrite is_tag_E, HE; cbn [List.find]; now rewrite Hx.
+Qed.
+
 Definition encoding_wf (e : xencoding) : Prop :=
   match e with XNum ne => numeric_wf ne | XStr se => string_wf se | XBin s0 => size_wf s0 end.
 Definition enc_tag (e : xencoding) : string :=
@@ -633,6 +643,36 @@ Proof.
   - rewrite (Miss "StringDataEncoding") by (cbn; tauto || reflexivity). rewrite (Miss "IntegerDataEncoding") by (cbn; tauto || reflexivity).
     rewrite (Miss "FloatDataEncoding") by (cbn; tauto || reflexivity). rewrite Hit. now rewrite rt_binary.
 Qed.
+
+(* a time type: the data encoding is the child of <Encoding>, which is followed by <ReferenceTime> at most *)
+Definition RTSET : list string := ["ReferenceTime"; "OffsetFrom"; "Epoch"].
+Theorem rt_encoding_time m a a2 post e : encoding_wf e -> Forall (tags_in RTSET) post ->
+  read_encoding U (E U m a (E U "Encoding" a2 [write_encoding U e] :: post)) = Ok e.
+Proof.
+  intros W Hpost. unfold read_encoding.
+  set (S := enc_tag e :: "Encoding" :: RTSET ++ INNER).
+  assert (Kids : Forall (tags_in S) (E U "Encoding" a2 [write_encoding U e] :: post)).
+  { constructor.
+    - apply ti_E; [right; now left|]. constructor; [|constructor]. eapply ti_weaken; [|apply ti_encoding]. intros x [<-|Hx]; [now left|]. right. right. apply in_or_app. now right.
+    - eapply Forall_impl; [|exact Hpost]. intros v. apply ti_weaken. intros x Hx. right. right. apply in_or_app. now left. }
+  assert (Miss : forall n, In n ["StringDataEncoding"; "IntegerDataEncoding"; "FloatDataEncoding"; "BinaryDataEncoding"] ->
+                 String.eqb (enc_tag e) n = false -> find_desc U n (E U m a (E U "Encoding" a2 [write_encoding U e] :: post)) = None).
+  { intros n Hn Hne. apply (find_desc_miss S); auto. intros m' [<-|[<-|Hm']]; auto.
+    - cbn in Hn. intuition; subst; reflexivity.
+    - apply in_app_or in Hm'. destruct Hm' as [Hm'|Hm']; [|now apply not_in_inner]. cbn in Hn, Hm'. intuition; subst; reflexivity. }
+  assert (Hit : find_desc U (enc_tag e) (E U m a (E U "Encoding" a2 [write_encoding U e] :: post)) = Some (write_encoding U e)).
+  { apply find_desc_hit2.
+    - destruct e as [ne| |]; cbn [enc_tag]; [destruct (xn_float ne)| |]; reflexivity.
+    - rewrite is_tag_write_encoding. apply String.eqb_refl. }
+  destruct e as [ne|se|s0]; cbn [enc_tag encoding_wf write_encoding] in *.
+  - destruct (xn_float ne) eqn:F.
+    + rewrite (Miss "StringDataEncoding") by (cbn; tauto || reflexivity). rewrite (Miss "IntegerDataEncoding") by (cbn; tauto || reflexivity).
+      rewrite Hit. rewrite <- F. now rewrite rt_numeric.
+    + rewrite (Miss "StringDataEncoding") by (cbn; tauto || reflexivity). rewrite Hit. rewrite <- F. now rewrite rt_numeric.
+  - rewrite Hit. now rewrite rt_string.
+  - rewrite (Miss "StringDataEncoding") by (cbn; tauto || reflexivity). rewrite (Miss "IntegerDataEncoding") by (cbn; tauto || reflexivity).
+    rewrite (Miss "FloatDataEncoding") by (cbn; tauto || reflexivity). rewrite Hit. now rewrite rt_binary.
+Qed.
 End Enc.
 
 Section Doc.
@@ -649,14 +689,24 @@ Ltac fstep := repeat (progress (
   rewrite ?is_tag_E, ?is_tag_ET, ?is_tag_VE, ?is_tag_write_cal, ?is_tag_write_comparison, ?is_tag_write_bexpr;
   cbn [String.eqb Ascii.eqb Bool.eqb])).
 
-(* ---- parameter types (non-time kinds) ---- *)
+(* ---- parameter types ---- *)
+(* a time type keeps its scale and offset as attributes of <Encoding>: the default calibrator they stand for is absent, a spline
+   (left alone), [scale*x] or [offset + scale*x] *)
+Definition time_default_ok (e : xencoding) : Prop :=
+  match e with
+  | XNum ne => match xn_default ne with
+               | None | Some (XSpline _ _ _) => True
+               | Some (XPoly ts) => (exists s, ts = [(s, 1%Z)]) \/ (exists o s, ts = [(o, 0%Z); (s, 1%Z)])
+               end
+  | _ => True
+  end.
 Definition ptype_wf (t : xptype) : Prop :=
   encoding_wf (xt_enc t) /\ xt_unit t <> Some "" /\
   match xt_kind t with
   | XKString => exists se, xt_enc t = XStr se
   | XKBinary => exists s0, xt_enc t = XBin s0
   | XKEnum _ => forall s0, xt_enc t <> XBin s0
-  | XKTime _ _ _ => False
+  | XKTime _ _ _ => time_default_ok (xt_enc t)
   | _ => True
   end.
 
@@ -685,10 +735,62 @@ Proof.
   apply mapM_map_rt. rewrite Forall_forall. intros [v l] _. unfold get, req_s, get. rewrite E_attrs. cbn [attr String.eqb Ascii.eqb Bool.eqb fst snd bind]. reflexivity.
 Qed.
 
+Definition reftime (ep ofr : option string) : list velem :=
+  match ofr, ep with
+  | None, None => []
+  | _, _ => [E U "ReferenceTime" [] ((match ofr with Some o => [E U "OffsetFrom" [("parameterRef", AS o)] []] | None => [] end) ++
+                                     (match ep with Some e => [ET U "Epoch" (AS e)] | None => [] end))]
+  end.
+Lemma ti_reftime ep ofr : Forall (tags_in RTSET) (reftime ep ofr).
+Proof. unfold reftime, RTSET. destruct ofr, ep; repeat first [apply Forall_nil | apply Forall_cons | apply ti_ET; [cbn; tauto] | apply ti_E; [cbn; tauto|] | cbn [app]]. Qed.
+Theorem rt_time name ab ep ofr unit enc : encoding_wf enc -> time_default_ok enc ->
+  let t := {| xt_name := name; xt_kind := XKTime ab ep ofr; xt_unit := unit; xt_enc := enc |} in read_ptype U (write_ptype U t) = Ok t.
+Proof.
+  intros We Wt t. unfold t, write_ptype. cbn [xt_kind xt_enc xt_name xt_unit].
+  fold (reftime ep ofr).
+  match goal with |- context [optattr "units" unit ++ ?s] => set (so := s) end.
+  unfold read_ptype, localname. cbn [E vtag snd].
+  assert (Tag : (String.eqb (kind_tag (XKTime ab ep ofr)) "AbsoluteTimeParameterType" || String.eqb (kind_tag (XKTime ab ep ofr)) "RelativeTimeParameterType")%bool = true)
+    by (destruct ab; reflexivity).
+  rewrite Tag.
+  assert (Ab : String.eqb (kind_tag (XKTime ab ep ofr)) "AbsoluteTimeParameterType" = ab) by (destruct ab; reflexivity). rewrite Ab.
+  fold (E U (kind_tag (XKTime ab ep ofr)) [("name", AS name)] (E U "Encoding" (optattr "units" unit ++ so) [write_encoding U enc] :: reftime ep ofr)).
+  rewrite (rt_encoding_time U _ _ _ _ enc We (ti_reftime ep ofr)).
+  set (EN := E U "Encoding" (optattr "units" unit ++ so) [write_encoding U enc]).
+  assert (FE : find U "Encoding" (E U (kind_tag (XKTime ab ep ofr)) [("name", AS name)] (EN :: reftime ep ofr)) = Some EN).
+  { unfold find. rewrite E_kids. cbn [List.find]. unfold EN. rewrite is_tag_E. reflexivity. }
+  rewrite FE.
+  assert (So : forall n, String.eqb "units" n = false -> get EN n = attr so n).
+  { intros n Hn. unfold get, EN. rewrite E_attrs. destruct unit; cbn [optattr app attr]; [now rewrite Hn|reflexivity]. }
+  assert (Un : opt_s EN "units" = Ok unit).
+  { unfold opt_s, get, EN. rewrite E_attrs. destruct unit; cbn [optattr app attr String.eqb Ascii.eqb Bool.eqb]; [reflexivity|].
+    unfold so. destruct enc as [ne| |]; try reflexivity. destruct (xn_default ne) as [[ts|? ? ?]|]; try reflexivity.
+    destruct (List.find _ ts); destruct (List.find _ ts); reflexivity. }
+  rewrite Un. rewrite (So "offset" eq_refl), (So "scale" eq_refl).
+  set (PT := E U (kind_tag (XKTime ab ep ofr)) [("name", AS name)] (EN :: reftime ep ofr)).
+  assert (NM : req_s PT "name" = Ok name) by reflexivity. rewrite NM. cbn [bind].
+  (* reference time *)
+  assert (RT : find U "ReferenceTime" PT = List.find (is_tag U "ReferenceTime") (reftime ep ofr)).
+  { unfold find, PT. rewrite E_kids. cbn [List.find]. unfold EN. rewrite is_tag_E. reflexivity. }
+  assert (EP : match find_path U ["ReferenceTime"; "Epoch"] PT with Some e => s <- text_s e ;; Ok (Some s) | None => Ok None end = Ok ep).
+  { cbn [find_path]. rewrite RT. unfold reftime. destruct ofr as [o|], ep as [e|]; cbn [List.find app]; rewrite ?is_tag_E; cbn [String.eqb Ascii.eqb Bool.eqb];
+      fstep; step; reflexivity. }
+  assert (OF : match find_path U ["ReferenceTime"; "OffsetFrom"] PT with Some e => s <- req_s e "parameterRef" ;; Ok (Some s) | None => Ok None end = Ok ofr).
+  { cbn [find_path]. rewrite RT. unfold reftime. destruct ofr as [o|], ep as [e|]; cbn [List.find app]; rewrite ?is_tag_E; cbn [String.eqb Ascii.eqb Bool.eqb];
+      fstep; step; reflexivity. }
+  rewrite EP, OF. clear EP OF RT FE Un So. clearbody PT EN.
+  (* scale / offset *)
+  unfold so. destruct enc as [ne|se|s0]; try reflexivity. cbn [time_default_ok] in Wt. destruct ne as [fl sz en od df cx]. cbn [xn_default] in *.
+  destruct df as [[ts|o1 o2 pts]|]; try reflexivity.
+  destruct Wt as [(s1 & ->)|(o1 & s1 & ->)]; reflexivity.
+Qed.
+
 Theorem rt_ptype t : ptype_wf t -> read_ptype U (write_ptype U t) = Ok t.
 Proof.
   intros (We & Wu & Wk). destruct t as [name kind unit enc]. cbn [xt_enc xt_unit xt_kind xt_name] in *.
-  assert (NT : match kind with XKTime _ _ _ => False | _ => True end) by (destruct kind; auto).
+  assert (TK : (exists ab ep ofr, kind = XKTime ab ep ofr) \/ match kind with XKTime _ _ _ => False | _ => True end)
+    by (destruct kind; eauto).
+  destruct TK as [(ab & ep & ofr & ->)|NT]; [exact (rt_time name ab ep ofr unit enc We Wk)|].
   rewrite (write_ptype_eq {| xt_name := name; xt_kind := kind; xt_unit := unit; xt_enc := enc |} NT). cbn [xt_name xt_kind xt_enc].
   set (t := {| xt_name := name; xt_kind := kind; xt_unit := unit; xt_enc := enc |}).
   unfold read_ptype. unfold localname. cbn [E vtag snd].
@@ -841,10 +943,14 @@ Definition example_doc : xdoc :=
                               xn_default := None; xn_context := None |} |};
          {| xt_name := "TXT"; xt_kind := XKString; xt_unit := None;
             xt_enc := XStr {| xs_charset := "UTF-16BE"; xs_order := Some "mostSignificantByteFirst";
-                              xs_size := XDynamic "PKT_APID" false (Some (8, 0)); xs_term := Some "0058"; xs_leading := None |} |} ];
+                              xs_size := XDynamic "PKT_APID" false (Some (8, 0)); xs_term := Some "0058"; xs_leading := None |} |};
+         {| xt_name := "MET_T"; xt_kind := XKTime true (Some "TAI") (Some "MODE"); xt_unit := Some "seconds";
+            xt_enc := XNum {| xn_float := false; xn_size := 32; xn_encoding := "unsigned"; xn_order := "mostSignificantByteFirst";
+                              xn_default := Some (XPoly [(4621819117588971520, 0); (4602678819172646912, 1)]); xn_context := None |} |} ];
      xd_params := [ {| xp_name := "PKT_APID"; xp_type := "U11"; xp_short := Some "apid"; xp_long := None |};
                     {| xp_name := "MODE"; xp_type := "MODE_T"; xp_short := None; xp_long := Some "mode of operation" |};
-                    {| xp_name := "NOTE"; xp_type := "TXT"; xp_short := None; xp_long := None |} ];
+                    {| xp_name := "NOTE"; xp_type := "TXT"; xp_short := None; xp_long := None |};
+                    {| xp_name := "MET"; xp_type := "MET_T"; xp_short := None; xp_long := None |} ];
      xd_containers :=
        [ {| xk_name := "ROOT"; xk_abstract := true; xk_short := None; xk_long := None; xk_entries := [XEP "PKT_APID"; XEP "MODE"];
             xk_base := None; xk_criteria := [] |};
@@ -856,7 +962,7 @@ Example example_doc_wf : doc_wf example_doc.
 Proof.
   unfold doc_wf, example_doc. cbn [xd_types xd_params xd_containers xd_name xd_date].
   repeat first [ split | apply Forall_cons | apply Forall_nil | discriminate | exact I | reflexivity | (right; reflexivity) | (left; reflexivity)
-               | (eexists; reflexivity) | (intros; discriminate) | (cbn; tauto) ].
+               | (eexists; reflexivity) | (cbn; right; do 2 eexists; reflexivity) | (intros; discriminate) | (cbn; tauto) ].
 Qed.
 Example example_roundtrip :
   exists v, write_doc (Some "urn:x") "2024-01-01" example_doc = Ok v /\ read_doc (Some "urn:x") v = Ok (with_date example_doc "2024-01-01").
